@@ -27,6 +27,11 @@ class Ref:
     def set(self, v): self.c[self.k] = v
     def __repr__(self): return '&' + repr(self.c[self.k])
 
+class DynRef(Ref):
+    """&dyn Trait: a Ref that remembers the concrete pointee type it was coerced from"""
+    __slots__ = ('dyn_ty',)
+    def __init__(self, c, k, dyn_ty): self.c = c; self.k = k; self.dyn_ty = dyn_ty
+
 class SliceRef:
     """&[T] / &mut [T]: view c[lo:hi]"""
     __slots__ = ('c', 'lo', 'hi')
@@ -71,6 +76,16 @@ class RMap:
     __slots__ = ('keys', 'vals')
     def __init__(self): self.keys = []; self.vals = []
 
+class RBSet(RSet):
+    """BTreeSet: items kept sorted by the model"""
+    __slots__ = ()
+class RBMap(RMap):
+    """BTreeMap: keys kept sorted by the model"""
+    __slots__ = ()
+class RRc(RBox):
+    """Rc / Arc: clone shares the cell"""
+    __slots__ = ()
+
 class FnRef:
     __slots__ = ('name', 'substs')
     def __init__(self, name, substs=None): self.name = name; self.substs = substs or {}
@@ -99,10 +114,11 @@ def deep_copy(v, memo=None):
     if isinstance(v, Enum): return Enum(v.ty, v.variant, v.idx, [deep_copy(x) for x in v.f])
     if isinstance(v, RString): return RString(v.ch)
     if isinstance(v, RVec): return RVec([deep_copy(x) for x in v.items])
-    if isinstance(v, RSet): return RSet([deep_copy(x) for x in v.items])
+    if isinstance(v, RSet): return type(v)([deep_copy(x) for x in v.items])
+    if isinstance(v, RRc): return v
     if isinstance(v, RBox): return RBox(deep_copy(v.cell[0]))
     if isinstance(v, (Ref, SliceRef, FnRef, Opaque, SymReal)): return v
     if isinstance(v, tuple): return v
     if isinstance(v, RMap):
-        m = RMap(); m.keys = [deep_copy(x) for x in v.keys]; m.vals = [deep_copy(x) for x in v.vals]; return m
+        m = type(v)(); m.keys = [deep_copy(x) for x in v.keys]; m.vals = [deep_copy(x) for x in v.vals]; return m
     raise TypeError('deep_copy: %r' % (v,))
